@@ -719,6 +719,18 @@ func (g *Gen) execUnOp(x *ssa.UnOp) {
 	case token.ARROW:
 		g.vals[x] = g.havocVal(x.Type(), "recv")
 		g.abstract("channel receive (not modelled)", x.Pos())
+		// a blocking receive is an event contracts can order calls against:
+		// called("$recv.<field>") for a channel read from a struct field
+		name := "$recv"
+		if ld, ok := x.X.(*ssa.UnOp); ok {
+			if fn, _ := fieldNameOfAddr(ld.X); fn != "" {
+				name = "$recv." + fn
+			}
+		}
+		if g.selectors[name] {
+			g.cur.ghost["$called:"+name] = "true"
+			g.cur.ghost["$count:"+name] = sx("+", g.ghostTerm(g.cur, "$count:"+name), "1")
+		}
 	default:
 		g.fail("unsupported unary op %s", x.Op)
 	}
